@@ -28,6 +28,12 @@ func ExtractCharClassRanges(re *syntax.Regexp) [][2]byte {
 		return nil
 	}
 
+	// A lazy repetition ([a-z]+?) matches one character, not the whole run;
+	// CharClassSearcher is greedy only.
+	if re.Flags&syntax.NonGreedy != 0 {
+		return nil
+	}
+
 	if len(re.Sub) != 1 {
 		return nil
 	}
